@@ -359,7 +359,20 @@ func failureInjection(R *Result, native bool, tierName string) error {
 				dm.Append(snapshot.KV{Key: []byte(fmt.Sprintf("key-%04d", e)), Value: bytes.Repeat([]byte{'n'}, vlen), TimestampNano: now})
 			}
 			dm.Append(snapshot.KV{Key: []byte("gen"), Value: []byte("new"), TimestampNano: now})
-			if d == corruptDBI {
+			if d == corruptDBI && corruptEntry%3 != 0 {
+				// an entry whose own length is consistent but whose inner field runs past its end: the key announces
+				// 9 bytes where 3 are left, or a fixed64 timestamp is cut
+				raw := append([]byte(nil), dm.Marshal()...)
+				if corruptEntry%3 == 1 {
+					raw = append(raw, 0x12, 0x05, 0x0a, 0x09, 'a', 'b', 'c')
+				} else {
+					raw = append(raw, 0x12, 0x06, 0x0a, 0x01, 'k', 0x19, 0x01, 0x02)
+				}
+				raw = append(raw, 0x12, 0x05, 0x0a, 0x03, 'z', 'z', 'z') // a good entry after it
+				if bad, err := snapshot.NewDBIFromData(raw); err == nil {
+					dm = bad
+				}
+			} else if d == corruptDBI {
 				// cut the message inside entry `corruptEntry`
 				raw := append([]byte(nil), dm.Marshal()...)
 				per := len(raw) / (ne + 2)
@@ -434,6 +447,9 @@ func failureInjection(R *Result, native bool, tierName string) error {
 		sig := map[string]interface{}{"prop": "C18", "class": class, "native": native}
 		if lerr != nil && after != before {
 			R.Bad(desc, sig, "LoadOnce failed (%v) but the LMDB was changed: a partially merged snapshot was committed", lerr)
+		}
+		if e, ok := desc["entry"].(int); lerr == nil && mustFail && class == "malformed" && ok && e%3 != 0 { // the inner-field truncations always yield an undecodable entry
+			R.Bad(desc, sig, "LoadOnce reported success for a snapshot with a malformed entry (entries after it are silently lost, the rest is committed)")
 		}
 		if lerr == nil && mustFail {
 			gens := map[string]bool{}
